@@ -115,10 +115,10 @@ func spell(segs []string, how int) string {
 func TestC03(t *testing.T) {
 	r := mon.Start(t, "C03")
 	defer r.Close()
-	for i := 0; i < r.Pick(24, 240); i++ {
+	for i := 0; i < r.Pick(64, 1200); i++ {
 		i := i
 		r.Case(fmt.Sprintf("tree/%d", i), map[string]any{"tree": i, "depth": 3}, func(c *mon.Case) {
-			root := genTree(c.Rand(), 3, true)
+			root := genTree(c.Rand(), 3+i%2*boolInt(!r.Quick()), true)
 			st := store.New()
 			if err := buildTree(st, root, nil); err != nil {
 				c.Harness("tree build: %v", err)
